@@ -231,7 +231,8 @@ def run(index, rep, tier):
                           "block-local `%s` starts as %s in both front ends" % (v, ri[v]),
                           "%s starts each block with `%s = %s` where the reader starts with `%s = %s`: state is carried from one block into the next on the one-tree-at-a-time route only (e.g. a taxon symbol mapper built for the previous block's TRANSLATE table), so the two routes resolve the same labels differently" % (yf.qualname, v, yi[v], v, ri[v]))
             rs = {w.attr for w in writes_in(rf.node) if w.kind in ("store", "augstore") and w.base is not None and norm(w.base) == "self"}
-            ys = {w.attr for w in writes_in(yf.node) if w.kind in ("store", "augstore") and w.base is not None and norm(w.base) == "self"}
+            # a store of None is a reset, not state kept from one block to the next
+            ys = {w.attr for w in writes_in(yf.node) if w.kind in ("store", "augstore") and w.base is not None and norm(w.base) == "self" and not (w.kind == "store" and w.value is not None and is_none(w.value))}
             extra = sorted(ys - rs)
             rep.check(not extra, "R13.3", yf.qualname, "yielder keeps state on self that the reader does not: %s" % extra, fn_where(yf), "%s stores the same self attributes as %s (%s)" % (yf.name, rf.name, sorted(rs) or "none"),
                       "%s stores self.%s, which its sibling %s keeps block-local: parser state outlives the block on the one-tree-at-a-time route only" % (yf.qualname, ", self.".join(extra), rf.qualname))
@@ -362,3 +363,48 @@ def run(index, rep, tier):
             rep.check(not ws, "R13.7", ptn.qualname, "label map `%s` written inside the <otu> loop" % pmap, fn_where(ptn, ws[0] if ws else L), "`%s` is only read inside the <otu> loop" % pmap,
                       "_parse_taxon_namespaces stores into `%s` inside the loop over <otu> elements (`%s`): the map is consulted only when a namespace is attached, so with it growing during the loop a later <otu> with the same label is folded into the earlier one on the iterator / data-set routes while the list and single-tree routes (no attached namespace) keep two taxa - the routes no longer deliver the same trees" % (pmap, norm(ws[0])[:60] if ws else ""))
         rep.floor("R13.7", "label maps probed in the <otu> loop", 1, nst)
+
+    # ---- R13.8 every file starts from a reader's initial state
+    with rep.section("R13.8"):
+        rep.rule("R13.8", "the file iterator starts every file the way a fresh reader does: each parse meta-variable that NexusReader.__init__ initialises with a constant and that a routine reachable from the iterator's per-stream function re-assigns while parsing is reset at the start of NexusTreeDataYielder._yield_items_from_stream (the list and data-set routes build a new reader per source)")
+        rinit = index.function("dendropy.dataio.nexusreader.NexusReader.__init__")
+        ys = index.function("dendropy.dataio.nexusyielder.NexusTreeDataYielder._yield_items_from_stream")
+        consts = {}
+        for a in walk_no_nested(rinit.node):
+            if isinstance(a, ast.Assign) and is_self_attr(a.targets[0]) and a.targets[0].attr.startswith("_") and (isinstance(a.value, ast.Constant) or (isinstance(a.value, (ast.List, ast.Dict)) and not ast.dump(a.value).count("elts=[") == 0)):
+                if isinstance(a.value, ast.Constant):
+                    consts[a.targets[0].attr] = a
+        # methods reachable from the per-stream function (self-calls, three levels)
+        seen = {}
+        work = [(ys, 0)]
+        while work:
+            f, d = work.pop()
+            if f.qualname in seen or d > 3:
+                continue
+            seen[f.qualname] = f
+            for c in calls_in(f.node, nested=True):
+                grade, cands = index.resolve_call(c, f)
+                if grade == "self":
+                    for k in cands:
+                        if hasattr(k, "node") and isinstance(k.node, ast.FunctionDef):
+                            work.append((k, d + 1))
+        written = {}
+        for f in seen.values():
+            if f is ys or f.name == "__init__":
+                continue
+            for w in writes_in(f.node):
+                if w.kind == "store" and w.base is not None and norm(w.base) == "self" and w.attr in consts and not (w.value is not None and isinstance(w.value, ast.Constant) and w.value.value == consts[w.attr].value.value):
+                    written.setdefault(w.attr, f)
+        g = cfg_of(ys)
+        firsts = [nd for nd in g.nodes if any(call_name(c) in ("next_token", "require_next_token", "next_token_ucase") for c in node_calls(nd))]
+        if not firsts or not written:
+            raise AnalysisError("R13.8: per-stream entry of the NEXUS tree iterator not recognised (%d token reads, %d document variables)" % (len(firsts), len(written)))
+        managed = {x.attr for x in ast.walk(ys.node) if isinstance(x, ast.Attribute) and isinstance(x.ctx, ast.Load) and norm(x.value) == "self"}
+        for attr, wf in sorted(written.items()):
+            if attr in managed and not any(isinstance(a, ast.Assign) and any(norm(t) == "self." + attr for t in a.targets) for a in walk_no_nested(ys.node)):
+                continue        # the per-stream function looks after this one itself (the tokenizer is re-pointed with set_stream)
+            resets = lambda nd, attr=attr: nd.kind == "stmt" and isinstance(nd.ast, ast.Assign) and any(norm(t) == "self." + attr for t in nd.ast.targets) and isinstance(nd.ast.value, ast.Constant)
+            ok = all(g.dominated_by(ft, resets, follow_exc=False) for ft in firsts[:1])
+            rep.check(ok, "R13.8", ys.qualname, "document variable %s survives from one file to the next" % attr, fn_where(ys), "%s is reset before the first token of every stream" % attr,
+                      "NexusTreeDataYielder._yield_items_from_stream reads the next file without resetting `self.%s`, which %s sets while parsing and NexusReader.__init__ starts at %s: one iterator instance serves all files, so the value declared by file 1 (NTAX=3) governs file 2 - its TRANSLATE block is refused with UndefinedTaxonError although the same two files read one after the other into a tree list are fine" % (attr, wf.qualname, norm(consts[attr].value)))
+        rep.floor("R13.8", "document variables re-assigned while parsing", 1, len(written))
